@@ -431,10 +431,14 @@ def oracle_reader(case):
     ins, outs = case.get("inputs", True), case.get("outputs", False)
     e = mk_engine(n, case.get("kind", "mamdani"), case.get("ranges"))
     exp = fl.FldExporter(separator=sep, headers=headers, input_values=ins, output_values=outs)
-    want = reader_rows(case)
+    # a reader is a stream: lines that its owner has read before handing it over (`consumed`) are not "the given rows"
+    rd = io.StringIO(case["reader"])
+    for _ in range(int(case.get("consumed", 0))):
+        rd.readline()
+    want = reader_rows(dict(case, reader=case["reader"][rd.tell():]) if case.get("consumed") else case)
     try:
         with fl.settings.context(decimals=d):
-            text = exp.to_string_from_reader(e, io.StringIO(case["reader"]), skip_lines=case["skip"])
+            text = exp.to_string_from_reader(e, rd, skip_lines=case["skip"])
     except ValueError as ex:
         if not want:
             return True, "ok"   # a reader without data lines is rejected by the exporter (nothing to tabulate)
@@ -770,6 +774,15 @@ def correspond(ctx):
         ok, detail = oracle(case)
         if not ok:
             mism.append({"case": case, "violation": True, "detail": detail, "what": detail})
+    # the same readers handed over after their owner has read the first one or two lines (no new random draw)
+    for i, case in enumerate(readers):
+        if i % 3 or len(mism) > 12 or case["reader"].count("\n") < 3:
+            continue
+        c2 = dict(case, consumed=1 + (i // 3) % 2)
+        st.count("reader-consumed")
+        ok, detail = oracle(c2)
+        if not ok:
+            mism.append({"case": c2, "violation": True, "detail": detail + f" (the first {c2['consumed']} line(s) of the reader had been read before it was handed over)", "what": detail})
     return mism
 
 
